@@ -20,6 +20,16 @@ def IsClique (es : List Edge) (c : List Nat) : Prop :=
 def Enumerates (es : List Edge) (L : List (List Nat)) : Prop :=
   (∀ c ∈ L, IsClique es c) ∧ ∀ c, IsClique es c → 2 ≤ c.length → ∃ d ∈ L, d.Perm c
 
+/-- the part of that contract `MPCC(G, max_size)` depends on: only cliques, and every clique with ≥ 2 vertices that is within
+    the size limit occurs.  Weaker than `Enumerates` (`Enumerates.upTo`): a list from which the cliques above the limit were
+    left out (they are skipped by the acceptance loop anyway) satisfies it too. -/
+def EnumeratesUpTo (es : List Edge) (maxSize : Nat) (L : List (List Nat)) : Prop :=
+  (∀ c ∈ L, IsClique es c) ∧
+    ∀ c, IsClique es c → 2 ≤ c.length → (maxSize = 0 ∨ c.length ≤ maxSize) → ∃ d ∈ L, d.Perm c
+
+theorem Enumerates.upTo {es : List Edge} {L : List (List Nat)} (h : Enumerates es L) (maxSize : Nat) :
+    EnumeratesUpTo es maxSize L := ⟨h.1, fun c hc hl _ => h.2 c hc hl⟩
+
 /-- the undirected pair {a,b} is one of the pairs of `c` -/
 def HasPair (c : List Nat) (a b : Nat) : Prop := a ∈ c ∧ b ∈ c ∧ a ≠ b
 
